@@ -50,6 +50,8 @@ def p_lines(t):
             for n, v in lines[1:]:
                 if v != src[n - 1].rstrip():
                     return 'continuation line %d %r reported as %r' % (n, src[n - 1], v)
+                if src[n - 1].strip() and src[n - 1][:1] not in (' ', '\t'):
+                    return 'line %d %r does not start with a blank or a tab, yet it is reported as a continuation of %r' % (n, src[n - 1], name)
             if not lines[-1][1].strip() and len(lines) > 1:
                 return 'field %r ends in a blank line' % name
     reported = set(nums)
